@@ -153,7 +153,9 @@ contract(
         'L': 'stream[pos + 16] * 256 + stream[pos + 17]',
         'T': 'stream[pos + 18]',
         'marker_ok': 'stream[pos:pos + 16] == Message.MARKER',
-        'type_ok': '(L >= 29 if T == 1 else L >= 23 if T == 2 else L >= 21 if T == 3 else L == 19 if T == 4 else L == 23 if T == 5 else L >= 19)',
+        # RFC 4271 4.1-4.5 minimum lengths; RFC 8654 section 4: the extended maximum applies to every message EXCEPT OPEN
+        # and KEEPALIVE, which stay within 4096 (the first version of this line had no upper bound for OPEN: the code's)
+        'type_ok': '(29 <= L and L <= 4096 if T == 1 else L >= 23 if T == 2 else L >= 21 if T == 3 else L == 19 if T == 4 else L == 23 if T == 5 else L >= 19)',
     },
     raises=[
         {'exc': 'NotConnected', 'iff': 'not old(self.io)'},
